@@ -42,8 +42,10 @@ CHECKS.update({
              'over 7 offsets are bug-hunting only (not exhaustible within budget).',
         note='Trusted: the AST->z3 translator (validated on a concrete grid against the real functions on every run), z3, CrossHair\'s '
              'pure-Python datetime model, the DTv/TDv contract model of datetime/timedelta used by E2. Out: adjust-*-to-timezone beyond the '
-             'bug-hunting offsets, |year| > 2.7e6 under CrossHair, XSD 1.0 BCE leap-year numbering. Differences across the datetime range limits '
-             '(years 9998..10001, 1, 2, -1, -2) are included.',
+             'bug-hunting offsets (adjust-date-to-timezone is claimed over an 11 x 11 table), |year| > 2.7e6 under CrossHair. Included, each case concrete '
+             'on its path: differences across the datetime range limits (years 9998..10001, 1, 2, -1, -2); lexical years / timezones under XSD 1.0 and 1.1; '
+             '24:00:00 at month and year ends; yearMonthDuration addition across 0000/0001 and 9999/10000; XSD 1.0 BCE values to the timeline and back; '
+             'xs:time arithmetic modulo 24 h; sub-second seconds component; duration + value commutativity.',
         technique='AST->z3 translation of calendar kernels vs civil-calendar reference (unsat) + CrossHair symbolic execution of the datatype classes',
         design='DESIGN.md §4 C11'),
     'C13': dict(
@@ -223,7 +225,8 @@ CHECKS['C17'] = dict(
          'quote/backslash, ASCII, BMP, surrogates, astral); the XML code-point predicate used by the serializer. API-level round trips '
          '(parse-json(serialize(v)), xml-to-json(json-to-xml(t))) are run as bug-hunting only.',
     note='Trusted: CrossHair str/json models. Out (stated): XML round trip parse-xml(serialize(node)) (expat is C code on bytes), JSON '
-         'value round trips beyond the table of 22 JSON texts (x base URI) and bug-hunting, number formatting of decimals.',
+         'value round trips beyond the table of 35 JSON texts (x base URI x escape option x options map) and bug-hunting, number formatting of '
+         'decimals. Tables (each case concrete on its path): 10 encodings, invalid JSON-XML booleans, option order of fallback/escape, NaN/Infinity texts.',
     technique='SMT-based symbolic execution (CrossHair/z3) of the JSON escape/unescape kernels vs an independent decoder',
     design='DESIGN.md §4 C17')
 CHECKS['C19'] = dict(
